@@ -16,6 +16,7 @@ from .core import (
     Cell, RaiseSignal, ReturnSignal, BreakSignal, ContinueSignal, PathEnd,
 )
 from .ip_expr import Env
+from .loader import ClassInfo
 
 MUTATORS = {
     "append", "add", "remove", "extend", "update", "pop", "setdefault", "clear",
@@ -668,6 +669,17 @@ class StmtMixin:
                 cell.fields[k] = self.path.const("fs.havoc", cell.fields[k].sort())
             return
         expr = ast.parse(target, mode="eval").body
+        if isinstance(expr, ast.Attribute):
+            owner0 = self.ev(expr.value, env)
+            if isinstance(owner0, VRef) and isinstance(self.path.heap[owner0.addr].cls, ClassInfo):
+                vw = self.registry.view_for(self.path.heap[owner0.addr].cls, expr.attr)
+                if vw is not None:
+                    setter = self.registry.view_setters.get(vw)
+                    if setter is None:
+                        raise Unsupported(f"{target} is a derived view and cannot be havocked")
+                    cur = self.deref(self.registry.spec_natives[vw](self, [owner0], {}))
+                    setter(self, owner0, self.havoc_value(cur, target))
+                    return
         ref = self.ev(expr, env)
         if isinstance(ref, VRef):
             cell = self.path.heap[ref.addr]
